@@ -42,6 +42,8 @@ func genSetup(seed uint64, tier, variant string) any {
 	case 4:
 		o.Password, o.DynAuth = "dynsecret", true // credentials function supplying a password for the default user
 	}
+	// static credentials next to the callback: what the callback returns is used verbatim, empty fields included
+	o.StaticDecoy = o.DynAuth && r.IntN(2) == 0
 	o.ClientName = pick(r, "", "", "app-1")
 	o.SelectDB = pick(r, 0, 0, 3)
 	o.NoTouch, o.NoEvict = r.IntN(3) == 0, r.IntN(3) == 0
@@ -122,6 +124,11 @@ func execSetup(t *testing.T, plan any, out *Outcome) {
 			n.Users[p.Opt.Username] = p.Opt.Password
 		case p.Opt.Password != "":
 			n.Users["default"] = p.Opt.Password
+		}
+		if p.Opt.StaticDecoy {
+			// the server knows the statically configured user too, with either password: a client that mixes the two
+			// sources is let in and shows up as the wrong user
+			n.Users["decoy"] = p.Opt.Password
 		}
 		w.Intercept = func(sc *fakeredisSrvConn, argv []string) (resp.Value, bool) {
 			ci := conns[sc.ID]
